@@ -156,6 +156,12 @@ def judge(ctx, acc, res, believed):
             return viol, suspects, unrun
         # some rank has no record for this configuration: the launch died here
         part = ' || '.join(s['message'] for s in row if s is not None and s['message'])
+        ck = read_ckpt(res)
+        ov = tag_overlap(ck) if ck and all(list(c['cfg']) == list(pt['c']) for c in ck.values()) else None
+        if ov:      # the box script itself mixed put and get data in one direction with overlapping tags: a bug of the script
+            ctx.broken.append('n=%d %s phase %s: the script violates its own separation rule: %s' % (n, list(pt['c']), ck[0]['phase'], ov))
+            unrun.extend(pts[i + 1:])
+            return viol, suspects, unrun
         suspects.append((pt, 'launch %s (rc %s) inside this configuration; %s; stderr: %s' % (res.status, res.rc, part, res.stderr[-600:].replace('\n', ' | '))))
         unrun.extend(pts[i + 1:])
         return viol, suspects, unrun
@@ -180,12 +186,12 @@ def run(ctx, exe, pts, scale, phase_timeout, launch_timeout, chunk, jobs, deadli
         launches = []
         for n in (2, 3, 4):
             mine = [p for p in pending if p['n'] == n]
-            per = max(chunk * 2 // n, 4)             # fewer sessions per launch for more ranks
+            per = chunk[n]
             nch = (len(mine) + per - 1) // per
             for i in range(nch):                      # strided: the sessions with big transfers are spread over the launches
                 launches.append(make_launch(exe, 'r%d-n%d-%d' % (rnd, n, i), n, mine[i::nch], scale, phase_timeout, launch_timeout))
         launches.sort(key=lambda l: -l.n)             # the longest launches (most ranks) first
-        results, skip = mp.run_box(launches, root, jobs=jobs, timeout=launch_timeout, deadline=deadline, confirm=False, max_ranks=32)
+        results, skip = mp.run_box(launches, root, jobs=jobs, timeout=launch_timeout, deadline=deadline, confirm=False, max_ranks=40)
         pending = []
         suspects = []
         for sk in skip:
@@ -237,35 +243,52 @@ def classify_known(res):
     return True, hung[0]['message']
 
 
-def classify_known2(res):
-    """True iff the failure happened in the phase that mixes put data and get data in one direction AND the data-tag ranges of
-    a putting rank S and a getting rank R > S overlap (S numbers its puts, R its gets, from their own counters; both kinds of
-    message travel S -> R on the same communicator)."""
+def read_ckpt(res):
     ck = {}
     for r in range(res.launch.n):
         try:
             ck[r] = json.load(open(os.path.join(res.dir, 'ckpt%d.json' % r)))
         except Exception:
-            return False, 'no checkpoint of rank %d' % r
-    if any(c['phase'] != 'F-put+get-same-direction' for c in ck.values()):
-        return False, 'phases %s' % [c['phase'] for c in ck.values()]
-    rng = {r: (c['next_tag'], c['next_tag'] + c['puts_to_serve'] + c['gets_to_issue']) for r, c in ck.items()}
+            return None
+    return ck
+
+
+def tag_overlap(ck):
+    """The predicate of C14-get-put-data-tag-collision, from the per-rank checkpoints of the phase that was running: a rank a
+    sends put data to b while b requests get data from a (same direction a -> b, same communicator), and the data-tag ranges
+    [next_tag, next_tag + number of put()/get() calls of the phase) of a (who numbers the puts) and b (who numbers the gets)
+    overlap.  Returns a description or None."""
+    if len(set((c['phase'], tuple(c['cfg'])) for c in ck.values())) != 1:
+        return None          # the ranks were not in the same phase: no statement
+    rng = {r: (c['next_tag'], c['next_tag'] + sum(c['serve_to']) + sum(c['get_from'])) for r, c in ck.items()}
     for a in ck:
         for b in ck:
-            if a < b and ck[a]['puts_to_serve'] > 0 and ck[b]['gets_to_issue'] > 0 and rng[a][0] < rng[b][1] and rng[b][0] < rng[a][1]:
-                sym = res.stderr.replace('\n', ' | ')
-                k = sym.find('MPI_ERR_TRUNCATE')
-                rows = session_records(res, 1)[0]
-                msgs = ' || '.join(x['message'] for x in rows if x is not None and x['message'])
-                return True, ('rank %d serves puts to rank %d with data tags in [%d,%d) while rank %d gets from rank %d with data tags in [%d,%d); symptom: %s'
-                              % (a, b, rng[a][0], rng[a][1], b, a, rng[b][0], rng[b][1], ('MPI_ERR_TRUNCATE in MPI_Testsome (rc %s)' % res.rc) if k >= 0 else (msgs[:300] or 'launch %s rc %s' % (res.status, res.rc))))
-    return False, 'no overlapping tag ranges: %s' % rng
+            if a != b and ck[a]['serve_to'][b] > 0 and ck[b]['get_from'][a] > 0 and rng[a][0] < rng[b][1] and rng[b][0] < rng[a][1]:
+                return ('rank %d serves puts to rank %d with data tags in [%d,%d) while rank %d gets from rank %d with data tags in [%d,%d)'
+                        % (a, b, rng[a][0], rng[a][1], b, a, rng[b][0], rng[b][1]))
+    return None
+
+
+def classify_known2(res):
+    """True iff the failure happened in phase F (put data and get data in one direction at once) and tag_overlap() holds."""
+    ck = read_ckpt(res)
+    if ck is None:
+        return False, 'a rank left no checkpoint'
+    if any(c['phase'] != 'F-put+get-same-direction' for c in ck.values()):
+        return False, 'phases %s' % [c['phase'] for c in ck.values()]
+    ov = tag_overlap(ck)
+    if ov is None:
+        return False, 'no overlapping tag ranges in one direction'
+    rows = session_records(res, 1)[0]
+    msgs = ' || '.join(x['message'] for x in rows if x is not None and x['message'])
+    sym = ('MPI_ERR_TRUNCATE in MPI_Testsome (rc %s)' % res.rc) if 'MPI_ERR_TRUNCATE' in res.stderr else (msgs[:300] or 'launch %s rc %s' % (res.status, res.rc))
+    return True, ov + '; symptom: ' + sym
 
 
 # dedicated runs for the known findings; each is classified by a predicate computed from what the ranks report
 REPRODUCERS = [
-    dict(kid=KNOWN_ID, key='known1', n=2, pt=dict(n=2, c=(0, 0, 1, 1), big=0, mutual=1), only=0, phase_timeout=6, classify=classify_known,
-         what='n=2 posted,tested,dyn,dynrecv=default,default,1,1: every rank gets from every other rank at once; all dynamic slots hold receives whose matching sends are queued at the peer behind the peer\'s own receives'),
+    dict(kid=KNOWN_ID, key='known1', n=2, pt=dict(n=2, c=(0, 0, 1, 1), big=0, mutual=5), only=0, phase_timeout=6, classify=classify_known,
+         what='n=2 posted,tested,dyn,dynrecv=default,default,1,1: every rank gets from every other rank at once (all gets issued before anybody progresses); all dynamic slots hold receives whose matching sends are queued at the peer behind the peer\'s own receives'),
     dict(kid=KNOWN_ID2, key='known2', n=2, pt=dict(n=2, c=(0, 0, 0, 0), big=0, mutual=2), only=6, phase_timeout=6, classify=classify_known2,
          what='n=2 default windows: rank 0 puts 33 buffers into rank 1 while rank 1 gets 33 buffers from rank 0; put data tags are numbered by the sender, get data tags by the receiver, both from 0: the messages cross-match'),
 ]
@@ -285,7 +308,7 @@ def check(ctx):
         l = make_launch(exe, rp['key'], rp['n'], [rp['pt']], 1, rp['phase_timeout'], 60, only=rp['only'])
         handles.append((rp, l, mp._start(l, kroot)))
     acc, violations, unconfirmed, skipped = run(ctx, exe, pts, scale=1 if quick else 2, phase_timeout=12 if quick else 25,
-                                                launch_timeout=60 if quick else 240, chunk=16 if quick else 32, jobs=12, deadline=deadline)
+                                                launch_timeout=60 if quick else 240, chunk={2: 32, 3: 16, 4: 16} if quick else {2: 32, 3: 32, 4: 32}, jobs=14, deadline=deadline)
     known_notes = []
     for rp, kl, kh in handles:
         kres = mp.Result(kl)
